@@ -49,7 +49,7 @@ type result struct {
 }
 
 // serve runs one stream through a fresh server.
-func serve(stream []byte, frag bool, pokeCodes []byte, r *ev.Run) *result {
+func serve(stream []byte, frag bool, pokeCodes []byte, r *ev.Run, abrupt ...bool) *result {
 	res := &result{}
 	ag := wire.New()
 	defer ag.Close()
@@ -140,7 +140,12 @@ func serve(stream []byte, frag bool, pokeCodes []byte, r *ev.Run) *result {
 	} else {
 		c1.Write(stream)
 	}
-	c1.(*net.UnixConn).CloseWrite()
+	if len(abrupt) > 0 && abrupt[0] {
+		// the peer vanishes without reading a single response: every reply write of the server fails
+		c1.Close()
+	} else {
+		c1.(*net.UnixConn).CloseWrite()
+	}
 	select {
 	case <-done:
 	case <-time.After(ev.OpTimeout()):
@@ -376,9 +381,10 @@ func main() {
 		gen.Pool()
 		now := uint64(time.Now().Unix())
 		type job struct {
-			c    *ev.Case
-			pcs  []piece
-			frag bool
+			c      *ev.Case
+			pcs    []piece
+			frag   bool
+			abrupt bool
 		}
 		jobs := make(chan job, 64)
 		var wg sync.WaitGroup
@@ -395,8 +401,19 @@ func main() {
 						stream = append(stream, p.raw...)
 					}
 					r.Eval(1)
-					res := serve(stream, j.frag, pokeCodesOf(j.pcs), r)
+					res := serve(stream, j.frag, pokeCodesOf(j.pcs), r, j.abrupt)
 					if res.err != nil && res.panicked == "" && len(res.responses) == 0 && len(j.pcs) == 0 {
+						continue
+					}
+					if j.abrupt {
+						// nobody reads the responses: only "never crashes" and "service ends" can be judged
+						if res.panicked != "" {
+							r.Violation(j.c, "panic:ServeAgent(peer vanished):"+ev.PanicSite(res.panicked), res.panicked, nil)
+						} else if res.hung {
+							r.Violation(j.c, "serving-never-ends:peer-vanished", "ServeAgent did not return after the peer closed the connection", nil)
+						} else {
+							r.Count("streams whose peer vanished without reading (no crash, service ended)", 1)
+						}
 						continue
 					}
 					judge(r, j.c, j.pcs, j.frag, res)
@@ -410,7 +427,7 @@ func main() {
 			if c == nil {
 				return
 			}
-			jobs <- job{c, pcs, frag}
+			jobs <- job{c, pcs, frag, false}
 		}
 		classify := func(body []byte) piece {
 			// tiny bodies: which of them are complete well-formed requests?
@@ -574,7 +591,7 @@ func main() {
 				}
 			}
 			// anything after an oversized / empty / malformed piece is only reached if service continues; keep the tail but mark nothing
-			jobs <- job{c, pcs, i%3 == 0}
+			jobs <- job{c, pcs, i%3 == 0, i%10 == 7}
 			if i < 3 {
 				var names []string
 				for _, p := range pcs {
